@@ -36,7 +36,7 @@ ASSUMPTIONS = [
     "get_paths / Part.segments / pretty_segments / add_segments are documented to store Segment objects on the part",
 ]
 COMPONENTS = {"real": ["partitura.score: add_segments, get_paths, Path, ScoreVariant.create_variant_part, unfold_part_maximal/minimal, iter_unfolded_parts, new_part_from_path", "utils.generic.ReplaceRefMixin", "utils.music.update_note_ids_after_unfolding"], "stub": ["none (no I/O in this world)"]}
-PROBES = ("score_vs_part", "same_call_twice_with_other_between", "tie_across_segment_boundary", "slur_across_segment_boundary", "volta", "volta3", "navigation", "two_repeats", "no_structure", "variant_count_checked", "partial_generator")
+PROBES = ("unfold_by_alignment", "score_vs_part", "same_call_twice_with_other_between", "tie_across_segment_boundary", "slur_across_segment_boundary", "volta", "volta3", "navigation", "two_repeats", "no_structure", "variant_count_checked", "partial_generator")
 
 
 # ----------------------------------------------------------------------------
@@ -65,8 +65,10 @@ def generate(seed, tier, cfg):
             ops.append({"k": "max", "update_ids": o.random() < 0.6, "ignore_leaps": o.random() < 0.7})
         elif x < 0.5:
             ops.append({"k": "min"})
-        elif x < 0.65:
+        elif x < 0.6:
             ops.append({"k": "iter", "take": o.choice((1, 99, 99, 99)), "update_ids": o.random() < 0.5})
+        elif x < 0.68:
+            ops.append({"k": "align"})
         elif x < 0.8:
             ops.append({"k": "paths", "flags": o.choice(((False, False, True), (False, True, True), (True, False, True), (False, True, False), (False, False, False)))})
         elif x < 0.9:
@@ -373,6 +375,22 @@ def execute(case, keep_log=False):
                         elif len(set(map(tuple, seqs))) != cnt:
                             res.violation("U4-variants", "iter", "variants are not distinct: %s" % seqs, site="distinct")
                 outcome = seqs
+            elif k == "align":
+                # unfold_part_alignment: the variant that covers an alignment best.  The alignment lists the note
+                # ids of the maximal unfolding (taken from a fresh, equal part), so only that variant covers it
+                fresh = build.build_score(asc, with_pages=True).parts[0]
+                ref = S.unfold_part_maximal(fresh, update_ids=True)
+                ids = [n.id for n in ref.notes_tied]
+                alignment = [{"label": "match", "score_id": i, "performance_id": "p%d" % j} for j, i in enumerate(ids)]
+                al0 = copy.deepcopy(alignment)
+                rp = S.unfold_part_alignment(part, alignment)
+                res.probe("unfold_by_alignment")
+                outcome = check_part(res, ap, part, rp, "align", "any", True, orig_objs)
+                got = sorted(n.id for n in rp.notes_tied)
+                if not res.violations and got != sorted(ids):
+                    res.violation("U4-policy", "align", "unfold_part_alignment for an alignment that lists the notes of the maximal unfolding returns a part with %d sounding notes, the maximal unfolding has %d (measures visited: %s)" % (len(got), len(ids), outcome), site="alignment-coverage")
+                if alignment != al0 and any("-1" in (a.get("score_id") or "") for a in al0):
+                    res.violation("U5-original-modified", "align", "unfold_part_alignment rewrote an alignment whose ids already carry visit numbers", site="alignment", target="alignment")
             elif k == "paths":
                 a, b, c = op["flags"]
                 ps = S.get_paths(part, no_repeats=a, all_repeats=b, ignore_leap_info=c)
